@@ -292,3 +292,108 @@ def r6_load_kill(ctx):
 
 
 RULES = [r1_smashing_updates, r2_smashing_load, r3_adaptive_store, r4_writeback, r5_no_bottom, r6_load_kill]
+
+
+def r7_operator_functor(ctx):
+    ctx.rule("C14.r7", "array_adaptive offset maps (and the environment containers they are built from): operator| merges with a join-like "
+             "functor, operator& with a meet-like one", floor=4)
+    from . import _containers as cont
+    cont.operator_functor_rule(ctx, "C14.r7", ("lib/array_adaptive_impl.cpp", "include/crab/domains/array_adaptive.hpp",
+                                                "include/crab/domains/separate_domains.hpp", "include/crab/domains/discrete_domains.hpp"))
+
+
+RULES += [r7_operator_functor]
+
+
+def r8_no_silent_skip(ctx):
+    ctx.rule("C14.r8", "array_adaptive: a store to a range is never skipped (in whole or in part) after a mere warning, and array_assign "
+             "forgets the previous cells of its left-hand side: every non-bottom return has updated or forgotten the written array", floor=3)
+    # (a) array_store_range
+    fs = ctx.db.fns(AA, pk=AAC + "::array_store_range")
+    if ctx.need(fs, "array_adaptive_domain::array_store_range"):
+        for fn in fs:
+            body = fn["body"]
+            g = paths.guards(body)
+
+            # returns that directly follow a CRAB_WARN in their block (the warn-and-return idiom)
+            after_warn = set()
+            for blk in walk(body):
+                if blk.get("k") != "seq":
+                    continue
+                warned = False
+                for st_ in blk.get("b", []):
+                    if st_.get("k") == "do" and "CRAB_WARN" in (st_.get("m") or "") and "CRAB_LOG" not in (st_.get("m") or ""):
+                        warned = True
+                    elif st_.get("k") == "ret" and warned:
+                        after_warn.add(id(st_))
+
+            def gen(n):
+                if n.get("k") == "call" and callee(n) and callee(n)["name"] in ("forget_array", "array_store", "operator-=", "forget") and \
+                        any(is_param(a, fn, 0) for a in n.get("a", [])):
+                    return ("effect",)
+                return ()
+            f = paths.must_events(body, gen)
+            nbad = 0
+            for r, st in f.returns:
+                if r is not None and id(r) in after_warn and "effect" not in st:
+                    # accepted: the range is empty (lb > ub)
+                    gs = g.get(id(r), ()) if r is not None else ()
+
+                    def empty_range(c):
+                        pp = cmp_parts(c)
+                        return 1 if (pp and pp[0] in ("<=", "<", ">", ">=") and
+                                     all(any(y.get("k") == "ref" and (y.get("n") or "") in ("lb", "ub") for y in walk(z)) for z in (pp[1], pp[2]))) else 0
+                    if guard_truth(gs, empty_range, body) is not None:
+                        ctx.ok("array_store_range: empty range ignored", fn, r)
+                        continue
+                    nbad += 1
+                    ctx.bad("array_adaptive_domain::array_store_range prints a warning and returns without storing to or forgetting the "
+                            "array: the cells of the range keep their previous values", fn, r if r is not None else body,
+                            sig="store-range-skipped")
+            # the store loop covers the whole range: its upper limit is the range's upper bound, never reassigned
+            d = local_decls(body)
+            for l in walk(body):
+                if l.get("k") == "for" and any(is_call(x, name="array_store") for x in walk(l.get("b"))):
+                    pp = cmp_parts(l.get("c"))
+                    lim = strip(pp[2]) if pp else None
+                    if isinstance(lim, dict) and lim.get("k") == "ref" and lim.get("rk") == "local" and writes_to(body, lim.get("id")):
+                        nbad += 1
+                        w = writes_to(body, lim.get("id"))[0]
+                        ctx.bad("array_adaptive_domain::array_store_range lowers the upper limit of its store loop (`%s`): the cells beyond "
+                                "it keep their previous values although the statement overwrites them" % src(w)[:60], fn, w,
+                                sig="store-range-truncated")
+            if nbad == 0:
+                ctx.ok("array_store_range never skips the range after a warning", fn, body)
+    # (b) array_assign
+    fs = ctx.db.fns(AA, pk=AAC + "::array_assign")
+    if ctx.need(fs, "array_adaptive_domain::array_assign"):
+        for fn in fs:
+            body = fn["body"]
+            g = paths.guards(body)
+
+            def gen2(n):
+                if is_call(n, name="forget_array") and n.get("a") and is_param(n["a"][0], fn, 0):
+                    return ("forgot",)
+                if is_call(n, name="erase_all") and n.get("a") and is_param(n["a"][0], fn, 0):
+                    return ("forgot",)
+                return ()
+
+            def refine(cond, pol):
+                c = strip(cond)
+                if is_call(c, name="is_bottom") and pol:
+                    return None
+                pp = cmp_parts(c)
+                if pp and pp[0] == "==" and pol and {0, 1} == {i for i in (0, 1) for z in (pp[1], pp[2]) if is_param(z, fn, i)}:
+                    return None          # lhs == rhs: nothing to do
+                return ()
+            f = paths.must_events(body, gen2, refine=refine)
+            if all("forgot" in st for r, st in f.returns):
+                ctx.ok("array_assign forgets the previous cells of lhs on every path", fn, body)
+            else:
+                r = [r for r, st in f.returns if "forgot" not in st][0]
+                ctx.bad("array_adaptive_domain::array_assign rebuilds the cells of `lhs` from `rhs` without forgetting the cells lhs already "
+                        "had: the ghost variable of a cell that only lhs had keeps its value and is found again by the next access "
+                        "(B[8] = 3; B := A; x := B[8] gives 3)", fn, r if r is not None else body, sig="array-assign-stale-cells")
+
+
+RULES += [r8_no_silent_skip]
